@@ -138,10 +138,10 @@ func wellFormed(r lspRange, b *refbuf.Buffer) string {
 }
 
 type c08Scenario struct {
-	Main string            // rendered main document (open)
-	Rd   *gmodel.Rendered  // its position map
+	Main string           // rendered main document (open)
+	Rd   *gmodel.Rendered // its position map
 	J    *gmodel.Journal
-	Inc  *gmodel.Rendered  // included file (on disk), may be nil
+	Inc  *gmodel.Rendered // included file (on disk), may be nil
 	Devs string
 }
 
